@@ -25,7 +25,7 @@ static int nt;
 static int BIG = 9;
 static int D = 4, ND = 2, NSH = 3;
 static const char SHN[] = { '1', '2', '3', 'B', 'C' };
-static int shape_order[5] = { 0, 1, 3, 2, 4 };     /* the first NSH entries are used: 1,2,B then 3, C */
+static int shape_order[5] = { 0, 1, 3, 4, 2 };     /* the first NSH entries are used: 1,2,B, then C, then 3 */
 static int NOPS;
 static char scen[128];
 
@@ -141,7 +141,7 @@ int main(int argc, char **argv)
             for (i = 0; i < len && !bad; i++) { err[0] = 0; bad = apply(NULL, seq[i], err); trans++; }
             if (!bad) { bad = do_drain(err); i = len + 1; }
             execs++; nodes++;
-            if (saw_overflow || saw_steal || saw_dist) nontriv++;
+            if (saw_overflow || saw_steal) nontriv++;
             if (bad) {
                 char h[1024]; int o = 0; h[0] = 0;
                 for (int j = 0; j < (i > len ? len : i); j++) { char nm[32]; opname(seq[j], nm, sizeof(nm)); o += snprintf(h + o, sizeof(h) - o, "%s%s", j ? " " : "", nm); }
